@@ -160,9 +160,8 @@ def judge (id : String) (cs : Case) (goObs : List String) : IO Unit := do
     Spec.Legacy.judgeTables its (ims k) spec setting
   let strip (l : Line) : List String := l.words.filter fun w => !(w.startsWith "call=")
   let same := (call "1").map strip == (call "2").map strip
-  -- cases fed NaN / ±Inf measurement texts belong to the class N17nan (stats.MannWhitneyUTest does not
-  -- terminate on NaN; the legacy collection is shielded by the fence, see notes/C17.md)
-  let kf := if cs.nonfinite then " kf=N17nan" else ""
+  -- known finding N17ovf: a metric whose value span is not representable in float64 (judged at full strength)
+  let kf := if spec.overflowClass then " kf=N17ovf" else ""
   IO.println s!"spec {id} stats1={stats "1"} stats2={stats "2"} tabs1={tabs "1"} tabs2={tabs "2"} same={if same then 1 else 0}{kf}"
 
 partial def loop (h : IO.FS.Stream) (st : State) : IO Unit := do
